@@ -179,4 +179,19 @@ PROPS = {
                  thorough=dict(checks=1600, shards=16, budget_s=3300, shrink="3m")),
         ],
     ),
+    "C16": dict(
+        level="exploration",
+        text="Exploration by generated search on real chains: sockets, targets (unbound, closed before or around the send, silently dropped, bound; remote or own node), bursts, hop budgets "
+             "and node hop limits are drawn; every notice received by every socket is recorded and compared with the multiset the statement requires (one well-formed 'service unknown' per "
+             "datagram to an unbound service, at the sending socket only, none for dropped/bound traffic); stream dials to unbound services must fail fast, dials into a drop rule must last "
+             "until their own deadline.",
+        note="Trusted: in-memory ordered links. In the window where a service is closed around the send only absence of mis-delivery and well-formedness are asserted.",
+        technique="property-based testing (rapid): generated send/dial histories against a multiset oracle over all observed notices",
+        assumptions=["positive expectations wait up to 25 s; absence is judged after a 0.4 s grace once all expected notices have arrived"],
+        parts=[
+            part("notices", "netprops", "TestC16", "C16",
+                 quick=dict(checks=64, shards=8, budget_s=420),
+                 thorough=dict(checks=1600, shards=16, budget_s=3300, shrink="3m")),
+        ],
+    ),
 }
